@@ -425,17 +425,25 @@ func TestC16Env(t *testing.T) {
 			if oneShotNow {
 				out = nil // the one stop a Broker takes was issued right after start
 			}
-			if len(plan) <= d-2 {
+			if len(plan) <= d-2 || oneShotNow {
 				switch kindOf(ev.Key) {
 				case "data":
 					out = append(out, pick(ev.Menu, "refuse", "gkfail:", "corrupt:", "down:60")...)
 				case "validate":
 					out = append(out, pick(ev.Menu, "refuse")...)
 				}
+				if oneShotNow && len(plan) == 0 {
+					// the one-shot run that follows one that died: it starts with what the dead one left in
+					// the queue cache (and, like every one-shot run, with the graceful stop already pending)
+					switch kindOf(ev.Key) {
+					case "data", "validate", "sent", "persist":
+						out = append(out, pick(ev.Menu, "crash")...)
+					}
+				}
 			}
 			return out
 		}, c16Check,
-		"a graceful or an immediate stop at every externally visible action of the sender (partials request, scan, cache write, data / recovery / poll request, sent-log write, done-marking, delete; in one scenario also every opening of a source file, i.e. during hashing), alone and after one request failure (request refused, receiver error on a part, a corrupted part -> validation failure, receiver unreachable for 60 s so that the pipeline's channels fill up); oracle: the sender exits (immediate: within 60 s, graceful: within the 20 min horizon, virtual time), a graceful stop leaves everything delivered and released, nothing confirmed is missing from the persisted queue cache; the one-shot run (stop right after start) completes")
+		"a graceful or an immediate stop at every externally visible action of the sender (partials request, scan, cache write, data / recovery / poll request, sent-log write, done-marking, delete; in one scenario also every opening of a source file, i.e. during hashing), alone and after one request failure (request refused, receiver error on a part, a corrupted part -> validation failure, receiver unreachable for 60 s so that the pipeline's channels fill up); oracle: the sender exits (immediate: within 60 s, graceful: within the 20 min horizon, virtual time), a graceful stop leaves everything delivered and released, nothing confirmed is missing from the persisted queue cache; the one-shot run (stop right after start) completes - also the one-shot run that follows a run that died (crash at a data / poll / sent-log / cache-write action), with one request failure")
 }
 
 // ---------------------------------------------------------------- C07: sender crash
